@@ -62,8 +62,8 @@ Section Frame.
   Proof.
     unfold create_violation_error, bindM, emit, throw, ret. intros H.
     destruct (cerror c) as [|k|e|eargs].
-    - destruct (clambda c && _); [destruct (select _ _ _)|]; finish_frame H r.
-    - destruct (clambda c && _); [destruct (select _ _ _)|]; finish_frame H r.
+    - destruct (clambda c); [destruct (select _ _ _)|]; finish_frame H r.
+    - destruct (clambda c); [destruct (select _ _ _)|]; finish_frame H r.
     - finish_frame H r.
     - destruct (select eargs eargs resolved) as [kw|]; cbn in H;
         try (match type of H with context [u_error ?a ?b ?c] => destruct (u_error a b c) end);
